@@ -208,6 +208,7 @@ class Run:
                 json.dump(patch, fh)
         self.log = []      # (argv, rc, stderr-tail) of wrapped commands
         self.panics = 0
+        self.cmd_trace = []
         self.last_ckpt = None
         self.blame_failed = 0
         self.plain(["init", "-q", "-b", "main", "."])
@@ -215,6 +216,14 @@ class Run:
         self.plain(["config", "user.name", "Dev"])
         self.plain(["config", "core.autocrlf", "false"])
         self.plain(["config", "commit.gpgsign", "false"])
+        self.plain(["config", "alias.st", "status --short"])
+        self.plain(["config", "alias.lg", "log --oneline -3"])
+        self.plain(["config", "alias.sh", "!echo shell-alias"])
+        self.plain(["config", "alias.ci-dry", "commit --dry-run --short"])
+        # quoting inside alias values: git splits them with its own rules (backslashes are literal inside '...')
+        self.plain(["config", "alias.gr", "grep -n -e 'alpha1\\|alpha2\\|L3'"])
+        self.plain(["config", "alias.grd", "grep -c -e \"omega[0-9]\\+\" -e 'm0x\\(1\\|2\\)'"])
+        self.plain(["config", "alias.lq", "log -1 --format='%s \\t|%an'"])
         for k, v in cfg.get("gitconfig", {}).items():
             self.plain(["config", k, v.replace("@DIR@", self.dir)])
         if cfg.get("attributes"):
@@ -265,7 +274,7 @@ class Run:
         env.update(self._dates())
         if extra_env:
             env.update(extra_env)
-        if self.mode == "hooks":
+        if self.mode in ("hooks", "plain"):
             exe = "git"
         else:
             exe = self.gitai
@@ -284,9 +293,13 @@ class Run:
         if "panicked at" in err:
             self.panics += 1
         self.log.append((["git"] + args, p.returncode, err[-400:]))
+        # what the user sees of the command (C06): exit status and captured standard output
+        self.cmd_trace.append([p.returncode, hashlib.sha256(p.stdout).hexdigest()[:16]])
         return p
 
     def gitai_cmd(self, args):
+        if self.mode == "plain":
+            return subprocess.CompletedProcess(args, 0, b"", b"")
         p = subprocess.run([self.gitai] + args, cwd=self.repo, env=self.env,
                            stdout=subprocess.PIPE, stderr=subprocess.PIPE)
         err = p.stderr.decode(errors="replace")
@@ -729,6 +742,35 @@ class Run:
             problems += mine
         return (not problems), problems
 
+    def proj_uv(self):
+        """what a user of plain git can observe of the repository (C06): HEAD, every ref outside the AI notes
+        namespaces, index, work tree bytes, stash, in-progress-operation state; plus exit status and captured
+        stdout of every git command run since the previous step"""
+        def h(b):
+            return hashlib.sha256(b).hexdigest()[:16]
+        refs = self.plain(["for-each-ref", "--format=%(refname) %(objectname)"], check=False).stdout.decode()
+        refs = "\n".join(l for l in refs.split("\n") if not l.startswith("refs/notes/ai"))
+        head = self.plain(["symbolic-ref", "-q", "HEAD"], check=False).stdout + \
+            self.plain(["rev-parse", "-q", "--verify", "HEAD"], check=False).stdout
+        index = self.plain(["ls-files", "-s", "-z"], check=False).stdout
+        status = self.plain(["status", "--porcelain=v2", "-z", "--untracked-files=all"], check=False).stdout
+        stash = self.plain(["stash", "list", "--format=%H"], check=False).stdout
+        wt = []
+        for root, dirs, files in os.walk(self.repo):
+            if ".git" in dirs:
+                dirs.remove(".git")
+            for fn in sorted(files):
+                pth = os.path.join(root, fn)
+                with open(pth, "rb") as fh:
+                    wt.append(os.path.relpath(pth, self.repo) + ":" + h(fh.read()))
+        gd = os.path.join(self.repo, ".git")
+        state = [n for n in ("MERGE_HEAD", "CHERRY_PICK_HEAD", "REVERT_HEAD", "rebase-merge", "rebase-apply",
+                             "BISECT_LOG", "SQUASH_MSG", "MERGE_MSG") if os.path.exists(os.path.join(gd, n))]
+        cmds = self.cmd_trace
+        self.cmd_trace = []
+        return {"head": h(head), "refs": h(refs.encode()), "index": h(index), "status": h(status), "stash": h(stash),
+                "wt": h("\n".join(sorted(wt)).encode()), "state": ",".join(state), "cmds": cmds}
+
     def proj_leak(self):
         """scan every blob reachable from the notes refs (whole history of each ref) for conversation text and
         for the raw credential-like token"""
@@ -765,6 +807,7 @@ class Run:
         fmtok, fmtproblems = self.proj_fmt(git, blame)
         self.fmt_problems = getattr(self, "fmt_problems", []) + fmtproblems
         return git, {"wl": wl, "ini": ini, "notes": notes, "blame": blame, "leak": self.proj_leak(),
+                     "uv": self.proj_uv() if self.cfg.get("uv") else {"skipped": True},
                      "fmtok": fmtok, "gblame": self.proj_gblame(git), "stats": self.proj_stats(git)}, detail
 
     def cleanup(self):
@@ -914,10 +957,21 @@ class Run:
         self.wrapped(["commit", "-q", "-m", "squash"])
         self._expect(act)
 
+    READONLY = {
+        "status": [["status", "--short"], ["status"]],
+        "log": [["log", "--oneline", "-n", "3"], ["log", "-p", "-n", "1", "--format=%s"]],
+        "diff": [["diff", "--stat"], ["diff"], ["diff", "--cached"]],
+        "bad": [["frobnicate"], ["status", "--no-such-flag"], ["log", "no-such-rev"], ["checkout", "no-such-branch"]],
+        "global": [["-C", ".", "status", "--short"], ["--no-pager", "log", "-1", "--format=%s"],
+                   ["-c", "core.abbrev=9", "rev-parse", "--short", "HEAD"], ["--version"], ["-c", "color.ui=never", "diff"]],
+        "plumbing": [["rev-parse", "HEAD"], ["ls-files", "-s"], ["cat-file", "-p", "HEAD"],
+                     ["for-each-ref", "refs/heads"], ["write-tree"], ["diff-index", "--cached", "HEAD"]],
+        "alias": [["st"], ["lg"], ["sh"], ["ci-dry"], ["gr"], ["grd"], ["lq"]],
+    }
+
     def act_ReadOnly(self, act):
-        cmd = {"status": ["status", "--short"], "log": ["log", "--oneline", "-n", "3"],
-               "diff": ["diff", "--stat"]}[act["cmd"]]
-        self.wrapped(cmd)
+        for cmd in self.READONLY[act["cmd"]]:
+            self.wrapped(list(cmd))
 
     def act_CkptRepeat(self, act):
         if self.last_ckpt is not None:
@@ -976,15 +1030,18 @@ def execute(gitai, scratch, cfg, behaviour, run_id):
                 ev["files"] = sorted(ev["files"])
             ev["git"] = git
             ev["obs"] = obs
-            if twin is not None:
+            if twin is not None and twin.mode == "plain":
+                twin._register_new_commits("x")
+                ev["twin"] = {"notes": obs["notes"], "blame": obs["blame"], "uv": twin.proj_uv()}
+            elif twin is not None:
                 tgit, tobs, tdetail = twin.observe()
                 if tgit["nc"] != git["nc"] or tgit["head"] != git["head"] or tgit["tree"] != git["tree"]:
                     info["divergent"] = "twin repository differs in git state after %s" % ev["ev"]
                     info["twin_git_mismatch"] = True
                     break
-                ev["twin"] = {"notes": tobs["notes"], "blame": tobs["blame"]}
+                ev["twin"] = {"notes": tobs["notes"], "blame": tobs["blame"], "uv": tobs["uv"]}
             else:
-                ev["twin"] = {"notes": obs["notes"], "blame": obs["blame"]}
+                ev["twin"] = {"notes": obs["notes"], "blame": obs["blame"], "uv": obs["uv"]}
             events.append(ev)
             info["notes_detail"] = {str(c): d for c, d in detail.items()}
         info["panics"] = run.panics + (twin.panics if twin else 0)
